@@ -53,6 +53,7 @@ var plainFlip int
 
 // runReader pushes input through one scanning reader of the real library.
 func runReader(rd string, o readOpts, input []byte) string {
+	noteCase("scan rd="+rd, o.String(), input)
 	var roots []cid.Cid
 	var n nexter
 	switch rd {
@@ -113,6 +114,20 @@ func runReader(rd string, o readOpts, input []byte) string {
 			return openErr(o, err)
 		}
 		roots, n = cr.Header.Roots, cr
+	case "rootloadfast":
+		// LoadCar into a store that offers PutMany (the batching path)
+		ms := &batchMapStore{}
+		h, err := car.LoadCar(context.Background(), ms, bytes.NewReader(input))
+		if err != nil {
+			if h == nil && len(ms.bs) == 0 {
+				if _, herr := car.NewCarReader(bytes.NewReader(input)); herr != nil {
+					return openErr(o, err)
+				}
+			}
+			rs := rootsOf(input)
+			return fmt.Sprintf("open=ok roots=%s blocks=%s end=%s sound=%d", cidsStr(rs), blocksStr(ms.bs), classify(err), b2i(sound(ms.bs)))
+		}
+		return fmt.Sprintf("open=ok roots=%s blocks=%s end=eof sound=%d", cidsStr(h.Roots), blocksStr(ms.bs), b2i(sound(ms.bs)))
 	case "rootload":
 		ms := &mapStore{}
 		h, err := car.LoadCar(context.Background(), ms, bytes.NewReader(input))
@@ -150,6 +165,16 @@ type mapStore struct{ bs []Blk }
 
 func (m *mapStore) Put(_ context.Context, b blocks.Block) error {
 	m.bs = append(m.bs, Blk{b.Cid(), b.RawData()})
+	return nil
+}
+
+// batchMapStore also offers PutMany: LoadCar then takes its batching path.
+type batchMapStore struct{ mapStore }
+
+func (m *batchMapStore) PutMany(_ context.Context, bs []blocks.Block) error {
+	for _, b := range bs {
+		m.bs = append(m.bs, Blk{b.Cid(), b.RawData()})
+	}
 	return nil
 }
 
